@@ -18,6 +18,11 @@ m={
  "not_applicable":[],
  "notes":notes.get('notes','')
 }
+SMT={'C01','C02','C04','C05','C07','C08','C09','C10','C18','C19'}
+def tech(pid):
+    if pid in SMT:
+        return "symbolic execution of the real functions (go/ssa) with SMT queries (z3 bit-vectors; cvc5 for floating point) on 64-bit symbolic values, exact finite-domain case analysis for declared choices, native replay of counterexamples"
+    return "symbolic execution of the real functions (go/ssa): all inputs of these harnesses are declared finite choices (fault index, scenario, result kinds, schedules), decided exactly by the interpreter's finite-domain reasoning without SMT calls; native replay of counterexamples"
 for p in props:
     pid=p['id']
     if pid in claimed:
@@ -29,9 +34,9 @@ for p in props:
           "evidence_file":"/verif/evidence/%s.json"%pid,
           "replay_cmd_template":"/verif/bin/gosym replay {path}",
           "engine":"gosym",
-          "level_claimed":{"category":"model_checking","text":n.get('text',"bounded symbolic execution of the real functions: every feasible path of the harnesses within the stated bounds is decided (z3 / exact finite-domain reasoning) for all values of its symbolic variables; counterexamples are replayed natively before being reported"),"design_ref":"DESIGN.md §4 "+pid},
+          "level_claimed":{"category":"model_checking","text":n.get('text',"bounded symbolic execution of the real functions: every feasible path of the harnesses within the stated bounds is decided (z3 / exact finite-domain reasoning) for all values of its symbolic variables; counterexamples are replayed natively before being reported"),"design_ref":"DESIGN.md §0.3 and §4 "+pid},
           "level_note":n.get('note',"bounds, stubs and intrinsics are listed in the evidence file (coverage.bounds, coverage.trusted_base, coverage.harnesses[].outside_claim)"),
-          "technique":"symbolic execution of go/ssa + SMT (z3 QF_BV/FP) with native replay of counterexamples"
+          "technique":tech(pid)
         })
     else:
         r=notes.get('not_applicable',{}).get(pid,"check not built yet in this revision (engine under construction)")
